@@ -18,7 +18,8 @@ def mention(k, style):
 
 def formula_for(c, refs, fail, mode, via_range, long_pad=False, style=0):
     """cell c (1-based, address A<c>) : = w(c) + refs...;  fail: own formula raises first.
-    style 4: a never-stored cell is mentioned twice as well (it is blank: value-neutral, and no cycle)"""
+    style 4: a never-stored cell is mentioned twice as well (it is blank: value-neutral, and no cycle)
+    style 5: every formula starts with the error value 1/0: a value is then #DIV/0!, a cycle is still a cycle"""
     parts = []
     if fail:
         parts.append('NOSUCHFUNC(1)' if mode == 0 else 'VLOOKUP(1,Z1:Z2,1,TRUE)')
@@ -35,6 +36,8 @@ def formula_for(c, refs, fail, mode, via_range, long_pad=False, style=0):
             i += 1
     if style == 4:
         parts.append('Z9+$Z$9')
+    if style == 5 and not fail:     # an error VALUE (not an exception) to the left of everything: the references are still evaluated
+        parts.insert(0, '1/0')
     return '=' + '+'.join(parts)
 
 
@@ -91,7 +94,9 @@ def live_cyclic(refs, fail, entry):
     return False
 
 
-def outcome_ok(refs, fail, entry, exp, val, obs):
+def outcome_ok(refs, fail, entry, exp, val, obs, style=0):
+    if style == 5 and exp == 'value':      # the value of every cell is the error value its formula starts with
+        return obs['outcome'] == 'value' and obs.get('abs') == {'t': 'err', 'v': '#DIV/0!'}
     if obs['outcome'] == exp and (exp != 'value' or obs.get('val') == val):
         return True
     # a failing cell AND a cycle both reachable: either report is right (which is met first depends on evaluation order)
@@ -104,11 +109,11 @@ def graph_worker(blocks):
         st = b if isinstance(b, dict) else pool.parse_block(b)
         refs, fail, entry, exp, val = st['refs'], st['fail'], st['entry'], st['outcome'], st['val']
         h = hash((str(refs), entry)) & 0xffff
-        style = (h >> 5) % 5
+        style = (h >> 5) % 6
         obs = evaluate_graph(refs, fail, entry, mode=h % 2, via_range=(h >> 1) % 2 == 0, long_pad=(h >> 2) % 8 == 0, style=style)
         out['n'] += 1
         out['outcomes'][exp] = out['outcomes'].get(exp, 0) + 1
-        ok = outcome_ok(refs, fail, entry, exp, val, obs)
+        ok = outcome_ok(refs, fail, entry, exp, val, obs, style)
         if len(out['samples']) < 2 and exp != 'value':
             out['samples'].append({'refs': refs, 'fail': fail, 'entry': entry, 'expected': exp, 'observed': {k: obs[k] for k in obs if k != 'abs'}})
         if not ok:
@@ -135,9 +140,9 @@ def shared_worker(groups):
             seq = order if rounds == 0 else order[::-1]
             for entry in seq:
                 exp, val = entries[entry]
-                obs = evaluate_graph(refs, fail, entry, mode=h % 2, via_range=(h >> 1) % 2 == 0, shared=shared, style=(h >> 5) % 5)
+                obs = evaluate_graph(refs, fail, entry, mode=h % 2, via_range=(h >> 1) % 2 == 0, shared=shared, style=(h >> 5) % 6)
                 out['n'] += 1
-                ok = outcome_ok(refs, fail, entry, exp, val, obs)
+                ok = outcome_ok(refs, fail, entry, exp, val, obs, (h >> 5) % 6)
                 if not ok:
                     out['dis'].append({'case': {'refs': refs, 'fail': fail, 'entry': entry, 'evaluated_before_by_same_evaluator': seq[:seq.index(entry)]},
                                        'exp': {'outcome': exp, 'val': val}, 'obs': {k: obs[k] for k in obs if k != 'abs'},
